@@ -111,6 +111,7 @@ type Exec struct {
 	timerOf    map[*Cell]*timerState
 	pools      map[*Cell][]Value // sync.Pool contents (per path)
 	conds      map[*Cell]*condState
+	globalRnd  *Cell // math/rand's process-global source (per path)
 	inStringer int // nesting of String()/Error() calls made on behalf of formatting
 	utf8ok     map[*Term]*Term
 	atomVCs    map[*Cell]*VC
